@@ -297,3 +297,150 @@ Proof.
       rewrite (V8 _ _ CF C2) in *. rewrite (U4 _ _ C3 CB'). lia.
 Qed.
 End LastStep.
+
+(* adding a point that has a neighbour in the set never increases the number of classes *)
+Section AddPointLe.
+Variable R : px -> px -> Prop.
+Hypothesis R_sym : forall a b, R a b -> R b a.
+Variables (Small Big : px -> Prop) (p : px).
+Hypothesis big_iff : forall z, Big z <-> Small z \/ z = p.
+Hypothesis has_nb : exists a, R p a /\ Small a.
+Lemma add_point_le l l' : comp_reps R Small l -> comp_reps R Big l' -> (length l' <= length l)%nat.
+Proof.
+  intros [HF [HP HC]] [HF' [HP' HC']].
+  assert (UP : forall x y, path R Small x y -> path R Big x y) by (intros x y; apply path_mono; intros z Hz; apply big_iff; left; exact Hz).
+  (* every class of Big contains a representative of Small *)
+  assert (EX : forall r', Big r' -> exists r, In r l /\ path R Big r' r).
+  { intros r' Hr'. apply big_iff in Hr'. destruct Hr' as [Hs| ->].
+    - destruct (HC r' Hs) as [r [Hr P]]. exists r. split; [exact Hr|apply UP; exact P].
+    - destruct has_nb as [a [Ra Sa]]. destruct (HC a Sa) as [r [Hr P]]. exists r. split; [exact Hr|].
+      eapply path_step; [apply big_iff; right; reflexivity|exact Ra|apply UP; exact P]. }
+  destruct (Forall2_build Big (fun r' r => In r l /\ path R Big r' r) l' EX HF') as [m F2].
+  rewrite <- (Forall2_length' _ _ _ F2). apply NoDup_incl_length.
+  - clear HF' HC'. induction F2 as [|a r l0 m0 [Hr Par] F2 IH]; [constructor|]. cbn [pairwise] in HP'. destruct HP' as [Ha HPr].
+    constructor; [|apply IH; exact HPr]. intros Hin.
+    destruct (Forall2_in_r _ _ _ r F2 Hin) as [a2 [Ha2 [_ Pa2]]].
+    rewrite Forall_forall in Ha. apply (Ha a2 Ha2).
+    eapply path_trans; [exact Par|]. apply (path_sym R Big R_sym). exact Pa2.
+  - intros r Hr. destruct (Forall2_in_r _ _ _ r F2 Hr) as [a [_ [H _]]]. exact H.
+Qed.
+End AddPointLe.
+
+Section LastStepLe.
+Variables (Y : Topo.img) (L : list px) (p : px).
+Hypothesis Y_fin : forall q, Y q = true -> In q L.
+Hypothesis Yp : Y p = true.
+Hypothesis last : forall q, Y q = true -> ~ ltr p q.
+Let X' := Topo.remove Y p.
+Hypothesis conn_dec : forall a b, path adj8 (fg X') a b \/ ~ path adj8 (fg X') a b.
+
+Lemma later_bg_le b : In b [5; 6; 7; 8]%nat -> Y (nb p b) = false.
+Proof.
+  intros Hb. destruct (Y (nb p b)) eqn:E; [|reflexivity]. exfalso. apply (last _ E).
+  destruct p as [r c]. unfold ltr, nb, off. cbn [In] in Hb. destruct Hb as [<-|[<-|[<-|[<-|[]]]]]; cbn; lia.
+Qed.
+Lemma pat_last_le : pat Y p = [Y (nb p 0); Y (nb p 1); Y (nb p 2); Y (nb p 3); true; false; false; false; false].
+Proof.
+  unfold pat. cbn [seq map]. rewrite nb_center, Yp.
+  rewrite (later_bg_le 5), (later_bg_le 6), (later_bg_le 7), (later_bg_le 8) by (cbn; tauto). reflexivity.
+Qed.
+Lemma A8_le a b : padj8 a b = true -> adj8 (nb p a) (nb p b). Proof. apply padj8_sound. Qed.
+Lemma A4_le a b : padj4 a b = true -> adj4 (nb p a) (nb p b). Proof. apply padj4_sound. Qed.
+Lemma A8p_le b : padj8 4 b = true -> adj8 p (nb p b). Proof. intros H. rewrite <- (nb_center p) at 1. apply padj8_sound. exact H. Qed.
+Lemma A4p_le b : padj4 4 b = true -> adj4 p (nb p b). Proof. intros H. rewrite <- (nb_center p) at 1. apply padj4_sound. exact H. Qed.
+Lemma nb_ne_p_le b : (b < 9)%nat -> b <> 4%nat -> nb p b <> p.
+Proof. intros Lb Nb E. apply Nb. eapply nb_is_center; eauto. Qed.
+
+Theorem last_step_le fgl bgl fgl' bgl' :
+  comp_reps adj8 (fg Y) fgl -> comp_reps adj4 (bg Y) bgl ->
+  comp_reps adj8 (fg X') fgl' -> comp_reps adj4 (bg X') bgl' ->
+  topo_count fgl bgl <= topo_count fgl' bgl' + (1 - k_last (Y (nb p 0)) (Y (nb p 1)) (Y (nb p 2)) (Y (nb p 3))).
+Proof.
+  intros CF CB CF' CB'. unfold topo_count.
+  assert (Fp : fg Y p) by exact Yp.
+  assert (U8 := fun l1 l2 => comp_reps_length adj8 (fg X') l1 l2 adj8_sym).
+  assert (U4 := fun l1 l2 => comp_reps_length adj4 (bg X') l1 l2 adj4_sym).
+  assert (V8 := fun l1 l2 => comp_reps_length adj8 (fg Y) l1 l2 adj8_sym).
+  assert (V4 := fun l1 l2 => comp_reps_length adj4 (bg Y) l1 l2 adj4_sym).
+  pose proof pat_last_le as PL.
+  destruct (k_last_cases (Y (nb p 0)) (Y (nb p 1)) (Y (nb p 2)) (Y (nb p 3))) as [[K [E0 [E1 [E2 E3]]]]|[[K SO]|[K [E1 [E2 EU]]]]]; rewrite K.
+  - (* isolated point *)
+    assert (ISO : forall a, adj8 p a -> bg Y a).
+    { intros a Ha. destruct (adj8_is_nb p a Ha) as [b [Lb [Nb ->]]]. unfold bg.
+      do 9 (destruct b as [|b]; [try congruence; try assumption; apply later_bg_le; cbn; tauto|]). lia. }
+    destruct (iso_fg_counts Y p Fp ISO fgl CF) as [l2 [L2 C2]].
+    pose proof (iso_bg_counts Y p Fp ISO bgl CB) as C3.
+    rewrite L2, (U8 _ _ C2 CF'), (U4 _ _ C3 CB'). lia.
+  - (* simple *)
+    assert (SA : SimpleAt Y p) by (apply simple_ok_sound; rewrite PL; exact SO).
+    destruct (simple_counts Y p fgl bgl SA CF CB) as [l2 [L2 [C2 C3]]].
+    rewrite <- L2, (U8 _ _ C2 CF'), (U4 _ _ C3 CB'). lia.
+  - (* two groups: u on the left, NE on the right, N between them in the background *)
+    assert (BN : bg Y (nb p 1)) by exact E1. assert (FNE : fg Y (nb p 2)) by exact E2.
+    assert (UX : exists u, (u = nb p 3 \/ u = nb p 0) /\ fg Y u) by (destruct EU as [E|E]; [exists (nb p 3)|exists (nb p 0)]; auto).
+    destruct UX as [u [Hu Fu]].
+    assert (Nu : u <> p) by (destruct Hu as [-> | ->]; apply nb_ne_p_le; lia).
+    assert (Au : adj8 p u) by (destruct Hu as [-> | ->]; apply A8p_le; reflexivity).
+    assert (FXu : fg X' u) by (apply remove_fg; auto).
+    assert (FXne : fg X' (nb p 2)) by (apply remove_fg; split; [exact FNE|apply nb_ne_p_le; lia]).
+    (* set neighbours of p are on the side of u or are NE *)
+    assert (FN : forall z, adj8 p z -> fg X' z -> path adj8 (fg X') z u \/ path adj8 (fg X') z (nb p 2)).
+    { intros z Hz Fz. destruct (adj8_is_nb p z Hz) as [b [Lb [Nb ->]]]. apply remove_fg in Fz. destruct Fz as [Fz _]. unfold fg in Fz.
+      assert (Cb : (b = 0 \/ b = 1 \/ b = 2 \/ b = 3 \/ b = 5 \/ b = 6 \/ b = 7 \/ b = 8)%nat) by lia.
+      destruct Cb as [->|[->|[->|[->|[->|[->|[->| ->]]]]]]];
+        try (rewrite later_bg_le in Fz by (cbn; tauto); discriminate).
+      - (* NW *) left. destruct Hu as [-> | ->]; [|apply path_refl; exact FXu].
+        eapply path_step; [apply remove_fg; split; [exact Fz|apply nb_ne_p_le; lia]|apply (A8_le 0 3); reflexivity|apply path_refl; exact FXu].
+      - (* N *) unfold bg in BN. congruence.
+      - right. apply path_refl. exact FXne.
+      - (* W *) left. destruct Hu as [-> | ->]; [apply path_refl; exact FXu|].
+        eapply path_step; [apply remove_fg; split; [exact Fz|apply nb_ne_p_le; lia]|apply (A8_le 3 0); reflexivity|apply path_refl; exact FXu]. }
+    (* background 4-neighbours of p are N or are connected to S below *)
+    assert (BS7 : bg Y (nb p 7)) by (apply later_bg_le; cbn; tauto).
+    assert (BNb : forall z, adj4 p z -> bg Y z -> path adj4 (bg Y) z (nb p 1) \/ path adj4 (bg Y) z (nb p 7)).
+    { intros z Hz Bz. destruct (adj4_is_nb p z Hz) as [b [Hb ->]]. cbn [In] in Hb. destruct Hb as [<-|[<-|[<-|[<-|[]]]]].
+      - left. apply path_refl. exact Bz.
+      - right. eapply path_step; [exact Bz|apply (A4_le 3 6); reflexivity|].
+        eapply path_step; [apply later_bg_le; cbn; tauto|apply (A4_le 6 7); reflexivity|apply path_refl; exact BS7].
+      - right. eapply path_step; [exact Bz|apply (A4_le 5 8); reflexivity|].
+        eapply path_step; [apply later_bg_le; cbn; tauto|apply (A4_le 8 7); reflexivity|apply path_refl; exact BS7].
+      - right. apply path_refl. exact Bz. }
+    assert (BIf : forall z, fg Y z <-> fg X' z \/ z = p).
+    { intros z. split; [intros Hz; destruct (px_eqb_spec z p) as [->|N0]; [right; reflexivity|left; apply remove_fg; auto]|].
+      intros [Hz| ->]; [apply remove_fg in Hz; tauto|exact Fp]. }
+    assert (PNf : ~ fg X' p) by (intros H; apply remove_fg in H; tauto).
+    assert (BIb : forall z, bg X' z <-> bg Y z \/ z = p) by (intros z; apply remove_bg).
+    assert (PNb : ~ bg Y p) by (unfold bg; congruence).
+    assert (IRR8 : forall a b, adj8 a b -> a <> b) by (intros a b [H _]; exact H).
+    destruct (conn_dec u (nb p 2)) as [SAME|DIFF].
+    + (* same component: N is cut off from the outside (C05's sep_not_connected): one more hole *)
+      assert (APART : ~ path adj4 (bg Y) (nb p 1) (nb p 7)).
+      { intros Q. rewrite nb_N, nb_S in Q.
+        assert (HN : Y (pN p) = false) by (rewrite <- nb_N; exact E1).
+        assert (HNE : Y (pNE p) = true) by (rewrite <- nb_NE; exact E2).
+        assert (HU : u = pW p \/ u = pNW p) by (rewrite <- nb_W, <- nb_NW; exact Hu).
+        assert (SM : path adj8 (fun q => fg Y q /\ q <> p) u (pNE p)).
+        { rewrite <- nb_NE. eapply path_mono; [|exact SAME]. intros q Hq. apply remove_fg in Hq. exact Hq. }
+        exact (sep_not_connected Y p u Yp last HN HNE HU Fu Q SM). }
+      assert (RING : forall a b, adj8 p a -> adj8 p b -> fg X' a -> fg X' b -> path adj8 (fg X') a b).
+      { intros a b Ha Hb Fa Fb. pose proof (path_sym adj8 (fg X') adj8_sym) as SY.
+        destruct (FN a Ha Fa) as [Pa|Pa], (FN b Hb Fb) as [Pb|Pb].
+        - eapply path_trans; [exact Pa|apply SY; exact Pb].
+        - eapply path_trans; [exact Pa|]. eapply path_trans; [exact SAME|apply SY; exact Pb].
+        - eapply path_trans; [exact Pa|]. eapply path_trans; [apply SY; exact SAME|apply SY; exact Pb].
+        - eapply path_trans; [exact Pa|apply SY; exact Pb]. }
+      pose proof (aa_counts adj8 adj8_sym IRR8 (fg X') (fg Y) p BIf PNf RING (ex_intro _ u (conj Au FXu)) fgl' CF') as C2.
+      destruct (ab_counts adj4 adj4_sym adj4_neq (bg Y) (bg X') p (nb p 1) (nb p 7) BIb PNb
+                  (A4p_le 1 eq_refl) BN (A4p_le 7 eq_refl) BS7 BNb APART bgl CB) as [l3 [L3 C3]].
+      rewrite (V8 _ _ CF C2), L3, (U4 _ _ C3 CB'). lia.
+    + (* different components: p joins them; the background is unchanged given the missing lemma *)
+      assert (APARTf : ~ path adj8 (fg X') u (nb p 2)) by exact DIFF.
+      destruct (ab_counts adj8 adj8_sym IRR8 (fg X') (fg Y) p u (nb p 2) BIf PNf Au FXu (A8p_le 2 eq_refl) FXne FN APARTf fgl' CF')
+        as [l2 [L2 C2]].
+      (* without the missing lemma: adding p to the background can only merge classes *)
+      assert (LEb : (length bgl' <= length bgl)%nat).
+      { apply (add_point_le adj4 adj4_sym (bg Y) (bg X') p BIb (ex_intro _ (nb p 7) (conj (A4p_le 7 eq_refl) BS7)) bgl bgl' CB CB'). }
+      rewrite (V8 _ _ CF C2) in *. lia.
+Qed.
+End LastStepLe.
+
